@@ -188,3 +188,36 @@ package plugin
 //@   ensures E1 [C01]: !p.Auto ==> result == nil && len(ra.Options) == old(len(ra.Options)) + 1 && isPI(ra.Options[old(len(ra.Options))]) && piMatches(as(ra.Options[old(len(ra.Options))], "*ndp.PrefixInformation"), p, p.Prefix, prefixLifetimeV(p, ghost.clockRead), prefixLifetimeP(p, ghost.clockRead))
 //@   opt safety [C01,C17]
 //@   opt frame [C01]
+
+// ---- Route --------------------------------------------------------------------
+
+//@ ghost var lastRoutes Slice
+// C15: a loopback route is advertised iff it is IPv6, not a /128 and not
+// contained in a different, shorter loopback route.
+//@ macro elig15(rt) = !addrIs4(pfxAddr(rt.Prefix)) && !pfxIsSingleIP(rt.Prefix)
+//@ macro covered15(p, routes) = exists(mc, 0, len(routes), pfxBits(routes[mc].Prefix) < pfxBits(p) && pfxContains(routes[mc].Prefix, pfxAddr(p)))
+//@ macro routeFactsOK(routes) = forall(j, 0, len(routes), 0 <= pfxBits(routes[j].Prefix) && pfxValid(routes[j].Prefix) && pfxMasked(routes[j].Prefix) == routes[j].Prefix)
+
+//@ func (*Route).current$1
+//@   ensures R1 [C15]: result == addrCompare(pfxAddr(a), pfxAddr(b))
+//@   opt pure applyCmpPfx
+
+//@ func (*Route).current
+//@   ghost local routesErr Iface
+//@   requires P1: r != nil && r.Routes != nil
+//@   assigns new mem(netip.Prefix), new mem(system.Route), ghost.lastRoutes
+//@   at call Routes() (rs, rerr): ghost.lastRoutes = rs ; ghost.routesErr = rerr
+//@   loop 1 invariant K0 [C15]: 0 <= rangeindex1 + 1 && rangeindex1 + 1 <= len(routes) && seen != nil && ghost.lastRoutes == routes && routeFactsOK(routes) && (prefixes == nil || fresh(prefixes))
+//@   loop 1 invariant K1 [C15]: forall(k, 0, len(prefixes), has(seen, prefixes[k]))
+//@   loop 1 invariant K2 [C15]: forall(q, "Pfx", has(seen, q) ==> member(prefixes, q))
+//@   loop 1 invariant K3 [C15]: forall(k, 0, len(prefixes), exists(j, 0, rangeindex1 + 1, routes[j].Prefix == prefixes[k] && elig15(routes[j]) && !covered15(routes[j].Prefix, routes)))
+//@   loop 1 invariant K4 [C15]: forall(j, 0, rangeindex1 + 1, elig15(routes[j]) && !covered15(routes[j].Prefix, routes) ==> has(seen, routes[j].Prefix))
+//@   loop 1 invariant K5 [C15]: forall(k1, 0, len(prefixes), forall(k2, k1 + 1, len(prefixes), prefixes[k1] != prefixes[k2]))
+//@   loop 2 invariant L0 [C15]: 0 <= rangeindex2 + 1 && rangeindex2 + 1 <= len(routes) && rt == routes[rangeindex1 + 1] && elig15(rt) && rangeindex1 + 1 < len(routes)
+//@   loop 2 invariant L1 [C15]: forall(m, 0, rangeindex2 + 1, !(pfxBits(routes[m].Prefix) < pfxBits(rt.Prefix) && pfxContains(routes[m].Prefix, pfxAddr(rt.Prefix))))
+//@   ensures E0 [C01,C15]: result1 == nil ==> forall(k, 0, len(result0), 0 <= pfxBits(result0[k]))
+//@   ensures E1 [C15]: (ghost.routesErr != nil) == (result1 != nil) && (result1 != nil ==> result0 == nil)
+//@   ensures E2 [C15]: result1 == nil ==> forall(q, "Pfx", member(result0, q) <==> exists(j, 0, len(ghost.lastRoutes), typed(ghost.lastRoutes, "[]system.Route")[j].Prefix == q && elig15(typed(ghost.lastRoutes, "[]system.Route")[j]) && !covered15(q, typed(ghost.lastRoutes, "[]system.Route"))))
+//@   ensures E3 [C15]: result1 == nil ==> forall(a, 0, len(result0), forall(b, a + 1, len(result0), addrCompare(pfxAddr(result0[a]), pfxAddr(result0[b])) < 0))
+//@   opt safety [C15,C17]
+//@   opt frame [C15]
